@@ -345,6 +345,14 @@ func c10b(c *Ctx, r *Report) {
 				if strings.HasSuffix(w.path, a) {
 					okPath = true
 				}
+				// `$Name` in the table stands for "a local of the writing function" (its own writes are checked below)
+				if strings.HasPrefix(a, "$") && strings.HasPrefix(w.path, "$") && !strings.ContainsAny(w.path, ".[(") {
+					okPath = true
+				}
+			}
+			// the node filled in place instead of through a local: `node.CodeList += current.Value` / `node.Union = current.Value`
+			if (s.field == "CodeList" && w.op == "+=" || s.field == "Union" && w.op == "=") && strings.HasSuffix(w.path, ".current.Value") {
+				okOp, okPath = true, true
 			}
 			if s.field == "rest" && !(strings.Contains(w.path, ".lex.input[") && strings.Count(w.path, "[") == 1) {
 				okPath = false
@@ -436,18 +444,50 @@ func c10b(c *Ctx, r *Report) {
 	if f := c.need(r, clause, "Parser", "parser", "parseDeclare"); f != nil {
 		info := f.Pkg.TypesInfo
 		for _, lv := range []struct{ name, kind, op string }{{"Codestr", "CodeQuote", "+="}, {"Unionstr", "UnionDirective", "="}} {
+			// the local whose value becomes DeclareNode.CodeList / .Union (whatever it is called); when the node is
+			// filled in place, the field's own writes take the local's role
+			field := map[string]string{"Codestr": "CodeList", "Unionstr": "Union"}[lv.name]
 			var obj types.Object
 			ast.Inspect(f.Decl.Body, func(n ast.Node) bool {
-				if id, ok := n.(*ast.Ident); ok && id.Name == lv.name {
-					if o := info.Defs[id]; o != nil {
-						obj = o
+				if kv, ok := n.(*ast.KeyValueExpr); ok {
+					if k, ok := kv.Key.(*ast.Ident); ok && k.Name == field {
+						if o, isV := identObj(info, kv.Value).(*types.Var); isV && !o.IsField() {
+							obj = o
+						}
 					}
 				}
 				return true
 			})
 			construct := f.Name + "/" + lv.name
 			if obj == nil {
-				r.Undecided(clause, "R1 PROVENANCE", construct, c.pos(f.Decl.Pos()), "local not found")
+				// in-place form: every write of the field in this function is `op current.Value` under the kind
+				fv := lookupField(c, "Parser", "DeclareNode", field)
+				bad, n := "", 0
+				if fv != nil {
+					for _, w := range fieldWrites(c, fv) {
+						if w.fn != f.Name || w.op == ":" {
+							continue
+						}
+						n++
+						guard := false
+						if st := stmtOf(f.Decl.Body, w.expr); st != nil {
+							for _, a := range guardAtoms(c, f, st) {
+								if strings.HasSuffix(a, `.current.Kind == "`+lv.kind+`")`) && !strings.HasPrefix(a, "!") {
+									guard = true
+								}
+							}
+						}
+						if w.op != lv.op || !strings.HasSuffix(w.path, ".current.Value") || !guard {
+							bad = fmt.Sprintf("`%s %s` at %s", w.op, w.path, c.pos(w.pos))
+						}
+					}
+				}
+				if n == 0 {
+					r.Undecided(clause, "R1 PROVENANCE", construct, c.pos(f.Decl.Pos()), "local not found")
+				} else {
+					r.Check(bad == "", clause, "R1 PROVENANCE", construct, c.pos(f.Decl.Pos()),
+						fmt.Sprintf("DeclareNode.%s %s current.Value under Is(%s), nothing else (node filled in place)", field, lv.op, lv.kind), "unexpected write: "+bad)
+				}
 				continue
 			}
 			bad := ""
